@@ -3,7 +3,9 @@ use super::core::*;
 use super::model::*;
 use super::values::incompatible_literal;
 
-const FIELD_TYPES: [fn() -> Ty; 8] = [
+const FIELD_TYPES: [fn() -> Ty; 10] = [
+    || Ty::Bits(1),
+    || Ty::Bits(8),
     || Ty::Int,
     || Ty::Int,
     || Ty::Str,
@@ -339,10 +341,24 @@ impl<'r> G<'r> {
 
     // ---------------------------------------------------------------- statements
     pub fn class_stmt(&mut self) {
+        let name = self.fresh("C");
+        if self.cfg.forward_decls && self.rng.chance(1, 5) {
+            // the forward-declaration idiom: `class C;` directly in front of the definition (one more class
+            // statement: an outline entry without children and a folding range of its own)
+            let s = self.fold_begin();
+            self.put("class ");
+            let r0 = self.pos();
+            self.put(&name);
+            let r1 = self.pos();
+            self.put(";");
+            self.fold_end(s, "class");
+            self.outline_push(OutlineNode { name: name.clone(), kind: "Class", range: (r0, r1), children: vec![] });
+            self.p.features.push("class:forward-declared");
+            self.nl();
+        }
         let (doc, checked) = self.maybe_docs();
         let start = self.fold_begin();
         self.put("class ");
-        let name = self.fresh("C");
         let nt = self.rng.below(4);
         let d = self.decl_here(&name, DeclKind::Class, vec!["class".into(), name.clone()], doc, checked);
         let range = self.p.decls[d].range;
